@@ -295,7 +295,21 @@ def _one_table(ctx, rep, rng, path, file_rows):
     _TABLES[0] += 1
     fields = FIELDS if _TABLES[0] % 2 else [dict(f_, id={1: 8, 8: 1, 2: 7, 7: 2}.get(f_["id"], f_["id"])) for f_ in FIELDS]     # long<->int, double<->float
     t = create_table(path, Schema(schema_id=1, fields=fields))
-    for rows in file_rows:
+    for fi, rows in enumerate(file_rows):
+        if len(file_rows) >= 2 and fi < 2 and _TABLES[0] % 3 == 0 and rows:
+            # every third table: its first two files are PRE-BUILT files with the SAME base name in two partition directories, queued
+            # through the file-level API (hive-style layout); nothing about an answer may depend on file names being unique
+            import pyarrow as pa
+            import pyarrow.parquet as pq
+            from datashard.data_structures import DataFile, FileFormat
+            rel = f"data/region={'eu' if fi == 0 else 'us'}/part-0.parquet"
+            full = os.path.join(path, rel)
+            os.makedirs(os.path.dirname(full), exist_ok=True)
+            sch = t.file_manager.data_file_manager.create_arrow_schema(Schema(schema_id=1, fields=fields))
+            pq.write_table(pa.Table.from_pylist(rows, schema=sch), full)
+            t.append_data([DataFile(file_path="/" + rel, file_format=FileFormat.PARQUET, partition_values={}, record_count=len(rows),
+                                    file_size_in_bytes=os.path.getsize(full))])
+            continue
         t.append_records(rows)
     stored = t.scan()           # values as stored (independent of any filter)
     return t, stored
@@ -401,6 +415,10 @@ def _end_to_end(ctx, rep):
             # long strings sharing a prefix
             ([[{"s": "customer-0123456789-a"}, {"s": "customer-0123456789-m"}], [{"s": "zz"}]], "s", "==", "customer-0123456789-m"),
             ([[{"s": "customer-0123456789-a"}, {"s": "customer-0123456789-m"}], [{"s": "zz"}]], "s", ">", "customer-0123456789-b"),
+            # not_in whose set holds a file's minimum AND its maximum (the values in between still match)
+            ([[{"i": 1}, {"i": 2}, {"i": 3}, {"i": 5}], [{"i": 1}, {"i": 5}]], "i", "not_in", [1, 5]),
+            ([[{"s": "a"}, {"s": "k"}, {"s": "z"}]], "s", "not_in", ["a", "z", None]),
+            ([[{"f": 1.0}, {"f": 2.5}, {"f": 9.0}]], "f", "not_in", [9.0, 1.0]),
             # between with a NULL end point matches nothing (SQL), it is not an open-ended range
             ([[{"i": 1}, {"i": 15}, {"i": None}, {"i": 30}]], "i", "between", (None, 20)),
             ([[{"i": 1}, {"i": 15}, {"i": None}, {"i": 30}]], "i", "between", (10, None)),
